@@ -173,7 +173,16 @@ class Gen:
                 # running at sig's rate although its value is `add`; the
                 # rate bookkeeping of this generator follows the value
                 a = self.add({'k': 'c', 'v': 2})
-        return self.add({'k': kind, 'a': a, 'm': m, 'd': d})
+        node = {'k': kind, 'a': a, 'm': m, 'd': d}
+        if kind == 'madd' and self.draw(st.integers(0, 2)) == 0:
+            # the receiver is one channel of a channel list whose other
+            # channels may run at other rates: each channel of the result
+            # is what the single call gives
+            node['with'] = [self.pick_signal() for _ in range(
+                self.draw(st.integers(1, 2)))]
+            node['i'] = self.draw(st.integers(0, len(node['with'])))
+            self.labels.add('madd_on_channel_list')
+        return self.add(node)
 
     def sumn(self):
         kind = self.draw(st.sampled_from(['sum3', 'sum4', 'sum']))
@@ -274,7 +283,7 @@ class Gen:
     def sink(self):
         cls = self.draw(st.sampled_from(
             ['Out', 'Out', 'Out', 'ReplaceOut', 'OffsetOut', 'XOut',
-             'SendTrig', 'Free', 'LocalOut']))
+             'SendTrig', 'Free', 'LocalOut', 'Pause', 'DetectSilence']))
         if cls == 'LocalOut':
             if self.has_local_out:
                 cls = 'Out'
